@@ -2,7 +2,7 @@
 Byte lengths and offsets are exact linear forms over the per-char UTF-8 lengths (LenV), so that char-boundary
 questions (`&text[a..b]`) are decided structurally or by the solver - never assumed.
 """
-import collections
+import collections, re
 import z3
 from .interp import SV, SB, EnumV, VecV, Ref, Opaque, UNIT, Panic, Unsupported, mk
 from . import unitables
@@ -22,6 +22,7 @@ class SymStr:
 class StrSlice:
     """&str: chars [lo, hi) of a SymStr"""
     __slots__ = ("s", "lo", "hi")
+    ref_like = True
 
     def __init__(self, s, lo, hi):
         self.s = s; self.lo = lo; self.hi = hi
@@ -45,6 +46,12 @@ class CharsV:
 
     def __deepcopy__(self, memo):
         return CharsV(self.s, self.i, self.hi)
+
+    def next(self, ex):
+        if self.i < self.hi:
+            c = self.s.chars[self.i]; self.i += 1
+            return c
+        return None
 
 
 def len8_e(c):
@@ -463,3 +470,249 @@ def install(models):
     models.table[0:0] = new
     models._cache_lookup.clear()
     models.FromFn = FromFn
+
+
+# ------------------------------------------------------------------------------------------------ more str API (C10, stage 2)
+class CharIndicesV:
+    """str::char_indices: yields (byte offset from the slice start, char)"""
+    def __init__(self, sl):
+        self.sl = sl; self.i = sl.lo
+
+    def next(self, ex):
+        if self.i < self.sl.hi:
+            off = span_len(self.sl.s, self.sl.lo, self.i)
+            c = self.sl.s.chars[self.i]; self.i += 1
+            return [off, c]
+        return None
+
+
+class BytesV:
+    """str::as_bytes: only first/last byte and length are supported (exact UTF-8 lead / trail byte terms)"""
+    ref_like = True
+
+    def __init__(self, sl):
+        self.sl = sl
+
+    def __deepcopy__(self, memo):
+        return self
+
+    def len_sym(self):
+        return span_len(self.sl.s, self.sl.lo, self.sl.hi)
+
+    def index_sym(self, ex, idx):
+        sl = self.sl
+        if sl.hi == sl.lo:
+            raise Panic("index out of bounds: the len is 0")
+        i = idx.norm() if isinstance(idx, LenV) else idx
+        if isinstance(i, int) and i == 0:
+            return [first_byte(sl.s.chars[sl.lo])], 0
+        n = self.len_sym()
+        last = lenv_binop(ex, "Sub", n, 1) if isinstance(n, LenV) else n - 1
+        same = (isinstance(i, LenV) and isinstance(last, LenV) and i.terms == last.terms and i.const == last.const) or (isinstance(i, int) and isinstance(last, int) and i == last)
+        if same:
+            return [last_byte(sl.s.chars[sl.hi - 1])], 0
+        raise Unsupported("byte index other than 0 / len-1")
+
+
+def first_byte(c):
+    if isinstance(c, int):
+        return chr(c).encode("utf-8")[0]
+    e = c.e
+    x = lambda v: z3.Extract(7, 0, v)
+    return SV(z3.simplify(z3.If(z3.ULT(e, 0x80), x(e), z3.If(z3.ULT(e, 0x800), x(0xC0 | z3.LShR(e, 6)),
+              z3.If(z3.ULT(e, 0x10000), x(0xE0 | z3.LShR(e, 12)), x(0xF0 | z3.LShR(e, 18)))))), 8)
+
+
+def last_byte(c):
+    if isinstance(c, int):
+        return chr(c).encode("utf-8")[-1]
+    e = c.e
+    x = lambda v: z3.Extract(7, 0, v)
+    return SV(z3.simplify(z3.If(z3.ULT(e, 0x80), x(e), x(0x80 | (e & 0x3F)))), 8)
+
+
+def digit_value(e):
+    """value of an ASCII alphanumeric as a digit (from_str_radix / to_digit), 255 if none"""
+    return z3.If(z3.And(z3.UGE(e, 48), z3.ULE(e, 57)), e - 48,
+                 z3.If(z3.And(z3.UGE(e, 97), z3.ULE(e, 122)), e - 87,
+                       z3.If(z3.And(z3.UGE(e, 65), z3.ULE(e, 90)), e - 55, z3.BitVecVal(255, 32))))
+
+
+def install_more(models):
+    R = models.reg
+    n0 = len(models.table)
+
+    def deref(x):
+        while isinstance(x, Ref):
+            x = x.get()
+        return x
+
+    def opt(x):
+        return EnumV("Option", 0, []) if x is None else EnumV("Option", 1, [x])
+
+    @R(r"^core::str::<impl str>::char_indices$")
+    def _char_indices(ex, c, a):
+        return CharIndicesV(as_slice(a[0]))
+
+    @R(r"^<CharIndices<'_> as Iterator>::next$")
+    def _ci_next(ex, c, a):
+        return opt(deref(a[0]).next(ex))
+
+    @R(r"^core::str::<impl str>::split_at$")
+    def _split_at(ex, c, a):
+        sl = as_slice(a[0])
+        j = char_index(ex, sl, a[1], "split_at")
+        return [StrSlice(sl.s, sl.lo, j), StrSlice(sl.s, j, sl.hi)]
+
+    @R(r"^core::str::<impl str>::as_bytes$")
+    def _as_bytes(ex, c, a):
+        return BytesV(as_slice(a[0]))
+
+    @R(r"^char::methods::<impl char>::is_ascii_alphabetic$")
+    def _is_alpha(ex, c, a):
+        ch = deref(a[0])
+        if isinstance(ch, int):
+            return 65 <= ch <= 90 or 97 <= ch <= 122
+        e = ch.e
+        return SB(z3.Or(z3.And(z3.UGE(e, 65), z3.ULE(e, 90)), z3.And(z3.UGE(e, 97), z3.ULE(e, 122))))
+
+    @R(r"^char::methods::<impl char>::is_ascii_alphanumeric$")
+    def _is_alnum(ex, c, a):
+        ch = deref(a[0])
+        if isinstance(ch, int):
+            return 65 <= ch <= 90 or 97 <= ch <= 122 or 48 <= ch <= 57
+        e = ch.e
+        return SB(z3.Or(z3.And(z3.UGE(e, 65), z3.ULE(e, 90)), z3.And(z3.UGE(e, 97), z3.ULE(e, 122)), z3.And(z3.UGE(e, 48), z3.ULE(e, 57))))
+
+    @R(r"^str::<impl str>::replace::<char>$|^core::str::<impl str>::replace::<char>$|^alloc::str::<impl str>::replace::<char>$")
+    def _replace_char(ex, c, a):
+        sl = as_slice(a[0]); frm = a[1]; to = as_slice(a[2]).chars()
+        out = []
+        for ch in sl.chars():
+            if isinstance(ch, int) and isinstance(frm, int):
+                hit = ch == frm
+            else:
+                ce = ch.e if isinstance(ch, SV) else z3.BitVecVal(ch, 32)
+                fe = frm.e if isinstance(frm, SV) else z3.BitVecVal(frm, 32)
+                hit = ex.branch_bool(SB(ce == fe))
+            if hit:
+                out += to
+            else:
+                out.append(ch)
+        s = SymStr(out, sl.s.name + "'")
+        return StrSlice(s, 0, len(out))
+
+    @R(r"^core::num::<impl u(128|64|32)>::from_str_radix$")
+    def _from_str_radix(ex, c, a):
+        bits = int(re.search(r"impl u(\d+)", c).group(1))
+        sl = as_slice(a[0]); radix = a[1]
+        chars = sl.chars()
+        err = lambda: EnumV("Result", 1, [Opaque("ParseIntError")])
+        if not chars:
+            return err()
+        # an optional leading '+'
+        c0 = chars[0]
+        plus = (c0 == 43) if isinstance(c0, int) else ex.branch_bool(SB(c0.e == 43))
+        if plus:
+            chars = chars[1:]
+            if not chars:
+                return err()
+        W = bits + 8
+        val = z3.BitVecVal(0, W)
+        bad = []
+        re_ = radix if isinstance(radix, int) else None
+        rterm = z3.BitVecVal(radix, 32) if isinstance(radix, int) else radix.e
+        for ch in chars:
+            e = ch.e if isinstance(ch, SV) else z3.BitVecVal(ch, 32)
+            d = digit_value(e)
+            bad.append(z3.UGE(d, rterm))
+            val = val * z3.ZeroExt(W - 32, rterm) + z3.ZeroExt(W - 32, d)
+        isbad = z3.simplify(z3.Or(bad))
+        if z3.is_true(isbad) or (not z3.is_false(isbad) and ex.branch_bool(SB(isbad))):
+            return err()
+        # overflow cannot happen while radix^len < 2^bits; otherwise decide it
+        maxr = re_ or 36
+        if maxr ** len(chars) >= (1 << bits):
+            ov = z3.UGE(val, z3.BitVecVal(1 << bits, W))
+            if ex.branch_bool(SB(ov)):
+                return err()
+        v = z3.simplify(z3.Extract(bits - 1, 0, val))
+        return EnumV("Result", 0, [v.as_long() if z3.is_bv_value(v) else SV(v, bits)])
+
+    @R(r"^char::methods::<impl char>::to_digit$")
+    def _to_digit(ex, c, a):
+        ch = a[0]; radix = a[1]
+        e = ch.e if isinstance(ch, SV) else z3.BitVecVal(ch, 32)
+        d = z3.simplify(digit_value(e))
+        ok = z3.simplify(z3.ULT(d, radix))
+        if z3.is_true(ok) or (not z3.is_false(ok) and ex.branch_bool(SB(ok))):
+            return opt(d.as_long() if z3.is_bv_value(d) else SV(d, 32))
+        return opt(None)
+
+    @R(r"^core::str::<impl str>::(contains|starts_with|ends_with|find)::<char>$")
+    def _char_pred(ex, c, a):
+        sl = as_slice(a[0]); pat = a[1]
+        chars = sl.chars()
+        pe = pat.e if isinstance(pat, SV) else z3.BitVecVal(pat, 32)
+
+        def eq(ch):
+            if isinstance(ch, int) and isinstance(pat, int):
+                return ch == pat
+            return ex.branch_bool(SB((ch.e if isinstance(ch, SV) else z3.BitVecVal(ch, 32)) == pe))
+        if "starts_with" in c:
+            return bool(chars) and eq(chars[0])
+        if "ends_with" in c:
+            return bool(chars) and eq(chars[-1])
+        for k, ch in enumerate(chars):
+            if eq(ch):
+                return True if "contains" in c else opt(span_len(sl.s, sl.lo, sl.lo + k))
+        return False if "contains" in c else opt(None)
+
+    @R(r"^core::str::<impl str>::(starts_with|ends_with|contains)::<&&?str>$")
+    def _str_pred(ex, c, a):
+        sl = as_slice(a[0]); pat = as_slice(a[1])
+        cs, ps = sl.chars(), pat.chars()
+
+        def eq_at(k):
+            for x, y in zip(cs[k:k + len(ps)], ps):
+                if isinstance(x, int) and isinstance(y, int):
+                    if x != y:
+                        return False
+                else:
+                    xe = x.e if isinstance(x, SV) else z3.BitVecVal(x, 32)
+                    ye = y.e if isinstance(y, SV) else z3.BitVecVal(y, 32)
+                    if not ex.branch_bool(SB(xe == ye)):
+                        return False
+            return True
+        if len(ps) > len(cs):
+            return False
+        if "starts_with" in c:
+            return eq_at(0)
+        if "ends_with" in c:
+            return eq_at(len(cs) - len(ps))
+        return any(eq_at(k) for k in range(len(cs) - len(ps) + 1))
+
+    @R(r"^<std::string::String as Deref>::deref$|^<String as Deref>::deref$|^std::string::String::as_str$|^<std::string::String as Clone>::clone$|^<std::string::String as AsRef<str>>::as_ref$|^<std::string::String as Borrow<str>>::borrow$")
+    def _string_id(ex, c, a):
+        return deref(a[0])
+
+    @R(r"^Option::<&str>::unwrap_or_default$")
+    def _unwrap_or_default_str(ex, c, a):
+        o = a[0]
+        return o.fields[0] if o.idx == 1 else StrSlice(SymStr([], "empty"), 0, 0)
+
+    @R(r"^<\[u8\] as Index<usize>>::index$")
+    def _bytes_index(ex, c, a):
+        b = deref(a[0]); i = a[1]
+        if not isinstance(b, BytesV):
+            raise Unsupported("byte index on " + repr(b)[:40])
+        sl = b.sl
+        n = span_len(sl.s, sl.lo, sl.hi)
+        if isinstance(i, int) and i == 0 and sl.hi > sl.lo:
+            return Ref([first_byte(sl.s.chars[sl.lo])], 0)
+        raise Unsupported("byte index other than 0 / len-1")
+
+    new = models.table[n0:]
+    del models.table[n0:]
+    models.table[0:0] = new
+    models._cache_lookup.clear()
